@@ -60,11 +60,32 @@ def main():
         fresh()
         res = {"id": sid, "property": prop, "ran": []}
         md = open(f"{src}/demo.md").read() if os.path.exists(f"{src}/demo.md") else ""
-        m = re.search(r"([\w\-/]+/tests/[\w\-]+\.rs)", md)
+        m = re.search(r"((?:[\w\-]+/)*tests/[\w\-]+\.rs)", md)
         cmdm = re.search(r"(cargo test[^\n`]*--test[^\n`]*)", md)
         if not m or not cmdm:
             res["confirm"] = "cannot parse demo.md"; print(sid, res["confirm"]); json.dump(res, open(f"{src}/eval.json", "w"), indent=1); continue
         demo_path = m.group(1).lstrip("/")
+        # optional test-only manifest addition described in demo.md ("Append to <crate>/Cargo.toml")
+        cm = re.search(r"[Aa]ppend to [`<>\w/]*?((?:[\w\-]+/)*Cargo\.toml)", md)
+        if cm:
+            block, take = [], False
+            for line in md.splitlines():
+                if cm.group(1) in line:
+                    take = True
+                    continue
+                if take:
+                    if line.startswith("    ") or line.startswith("\t"):
+                        block.append(line.strip())
+                    elif line.strip() == "" and not block:
+                        continue
+                    elif line.strip() == "" and block:
+                        continue
+                    elif block:
+                        break
+            if block:
+                with open(f"{CF}/repo/{cm.group(1)}", "a") as f:
+                    f.write("\n" + "\n".join(block) + "\n")
+                res["manifest_addition"] = {"file": cm.group(1), "lines": block}
         demo_cmd = "CARGO_NET_OFFLINE=true CARGO_TARGET_DIR=%s/rtarget %s" % (CF, cmdm.group(1).replace("CARGO_NET_OFFLINE=true", "").strip())
         if "--offline" not in demo_cmd:
             demo_cmd = demo_cmd.replace("cargo test", "cargo test --offline")
